@@ -29,6 +29,9 @@ type vfC12Case struct {
 	// ViaResume: the session that is cut is the second one, obtained by calling Client.Resume() synchronously
 	// from inside the Disconnected handler of a first loss (what a StreamManager does)
 	ViaResume bool `json:"via_resume,omitempty"`
+	// FailedAttempt (with ViaResume): the first reconnection attempt fails in the negotiation (the server ends the
+	// stream instead of answering <auth/>); the session that is cut is the one obtained by the second attempt
+	FailedAttempt bool `json:"failed_attempt,omitempty"`
 }
 
 func vfC12GenStream(r *rand.Rand, n int, idx int) *vfC12Stream {
@@ -111,6 +114,10 @@ func vfC12Run(run *vfkit.Run, st *vfC12Stream, cs *vfC12Case) {
 	target := 0
 	if cs.ViaResume {
 		target = 1
+		if cs.FailedAttempt {
+			target = 2
+			tag += ":after-failed-attempt"
+		}
 	}
 	resumedUp := make(chan struct{})
 	peer := vfNewPeer(func(pc *vfPeerConn) {
@@ -118,6 +125,21 @@ func vfC12Run(run *vfkit.Run, st *vfC12Stream, cs *vfC12Case) {
 			return
 		}
 		o := &vfNeg{SM: st.SM, ExpectEnable: st.SM && pc.N == 0, SMResume: "true", SMID: "sm-c12", ExpectPresence: pc.N == 0, Bind: true, Resume: "resumed"}
+		if cs.FailedAttempt && pc.N == 1 {
+			// the reconnection attempt that fails: the server goes down politely right after the client's <auth/>
+			if _, err := pc.Expect("stream"); err != nil {
+				return
+			}
+			pc.Send(vfStreamHeader("jabber:client", "c12f", "localhost") + o.features("pre-auth"))
+			pc.Expect("auth")
+			pc.Send("</stream:stream>")
+			pc.idle = 300 * time.Millisecond
+			for {
+				if _, err := pc.Next(); err != nil {
+					return
+				}
+			}
+		}
 		if pc.N < target {
 			// first session of a via-resume case: established, then lost at a stanza boundary
 			if _, err := pc.Negotiate(o); err != nil {
@@ -153,6 +175,7 @@ func vfC12Run(run *vfkit.Run, st *vfC12Stream, cs *vfC12Case) {
 	}
 	obs.catchAll(c.router)
 	wantReports := 1
+	errorsBeforeCut := 0 // error callbacks seen when the session under test came up (a failed attempt may add one of its own)
 	if cs.ViaResume {
 		wantReports = 2
 		var once sync.Once
@@ -162,6 +185,10 @@ func vfC12Run(run *vfkit.Run, st *vfC12Stream, cs *vfC12Case) {
 			if e.State.state == StateDisconnected {
 				once.Do(func() {
 					resumeErr = c.Resume() // synchronously, inside the goroutine that detected the loss
+					if cs.FailedAttempt && resumeErr != nil {
+						resumeErr = c.Resume() // the retry a StreamManager would make
+					}
+					errorsBeforeCut = len(obs.Errors())
 					close(resumedUp)
 				})
 			}
@@ -185,6 +212,9 @@ func vfC12Run(run *vfkit.Run, st *vfC12Stream, cs *vfC12Case) {
 		return
 	}
 	reported := vfWaitUntil(15*time.Second, func() bool {
+		if cs.ViaResume {
+			return len(obs.Errors()) >= errorsBeforeCut+1 && obs.CountState(StateDisconnected) >= wantReports
+		}
 		return len(obs.Errors()) >= wantReports && obs.CountState(StateDisconnected) >= wantReports
 	})
 	if !reported {
@@ -223,6 +253,9 @@ func vfC12Run(run *vfkit.Run, st *vfC12Stream, cs *vfC12Case) {
 		return
 	}
 	nerr, ndis := len(obs.Errors()), obs.CountState(StateDisconnected)
+	if cs.ViaResume && cs.FailedAttempt {
+		nerr = nerr - errorsBeforeCut + 1 // judged: the callbacks since the session under test came up, plus the first loss
+	}
 	if nerr != wantReports {
 		run.Violation("C12/error-callback-count:"+tag, fmt.Sprintf("cut at byte %d (%s): %d error callbacks %v", cs.K, cs.How, nerr, obs.Errors()), map[string]interface{}{"case": cs, "prefix": st.Bytes[:cs.K]})
 		return
@@ -277,9 +310,12 @@ func vfC12Run(run *vfkit.Run, st *vfC12Stream, cs *vfC12Case) {
 	if cs.ViaResume {
 		run.Count("cuts_on_resumed_session", 1)
 	}
+	if cs.FailedAttempt {
+		run.Count("cuts_on_session_after_failed_attempt", 1)
+	}
 	run.Count("cuts_"+cs.How, 1)
 	run.Count("stanzas_routed_before_cut", int64(len(got)))
-	run.Nontrivial(fmt.Sprintf("%d|%d|%s|%v", cs.Stream, cs.K, cs.How, cs.ViaResume))
+	run.Nontrivial(fmt.Sprintf("%d|%d|%s|%v|%v", cs.Stream, cs.K, cs.How, cs.ViaResume, cs.FailedAttempt))
 }
 
 func TestVf_C12(t *testing.T) {
@@ -310,6 +346,9 @@ func TestVf_C12(t *testing.T) {
 			}
 			if st.SM && (vfkit.Thorough() || k%5 == si%5) {
 				cases = append(cases, &vfC12Case{Stream: si, K: k, How: "fin", ViaResume: true})
+				if k%3 == 0 {
+					cases = append(cases, &vfC12Case{Stream: si, K: k, How: "fin", ViaResume: true, FailedAttempt: true})
+				}
 			}
 		}
 		run.Count("stream_bytes", int64(len(st.Bytes)))
